@@ -15,13 +15,13 @@ import time
 
 from .tlc import BUILD, SPEC, MachineryError
 
-CFG = """SPECIFICATION Spec
+CFG = """SPECIFICATION {spec}
 POSTCONDITION Accepted
 CHECK_DEADLOCK FALSE
 """
 
 
-def validate(module, traces, *, timeout=1800, chunk=4000, extra_cfg=""):
+def validate(module, traces, *, timeout=1800, chunk=4000, extra_cfg="", spec="Spec"):
     """Return (rejected, stats): rejected = {trace index (0-based): matched prefix length}."""
     rejected = {}
     stats = {"traces": len(traces), "events": sum(len(t["ev"]) for t in traces), "states": 0,
@@ -36,7 +36,7 @@ def validate(module, traces, *, timeout=1800, chunk=4000, extra_cfg=""):
         tf = os.path.join(rundir, "traces.json")
         json.dump(part, open(tf, "w"))
         cfgp = os.path.join(rundir, module + ".cfg")
-        open(cfgp, "w").write(CFG + extra_cfg)
+        open(cfgp, "w").write(CFG.format(spec=spec) + extra_cfg)
         env = dict(os.environ, TRACE_FILE=tf)
         cmd = ["tlc", "-workers", "1", "-metadir", os.path.join(rundir, "meta"), "-noGenerateSpecTE",
                "-config", cfgp, os.path.join(SPEC, module + ".tla")]
